@@ -1476,6 +1476,13 @@ fn c16(cx: &mut Ctx) {
     }
     t(cx, "edges".to_string());
     t(cx, "sqdefault".to_string());
+    t(cx, "nums".to_string());
+    t(cx, "empty".to_string());
+    for (name, n) in [("sqconst", 64), ("allsq", 64), ("allfiles", 8), ("allranks", 8), ("allpieces", 6), ("allcolors", 2), ("allcr", 4), ("promo", 4)].iter() {
+        for i in 0..*n {
+            t(cx, format!("{} {}", name, i));
+        }
+    }
     for s in 0..64 {
         t(cx, format!("rsq2cr {}", s));
         t(cx, format!("toint {}", s));
